@@ -1,3 +1,4 @@
+import RsMatterVerif.Generated.Consts
 import RsMatterVerif.Model.Codec.Buf
 /-!
 # Model of `bdx.rs`: `TransferInit`, `TransferAccept`, `Block`, `BlockQuery`, `BlockQueryWithSkip`
@@ -16,10 +17,12 @@ def bit (b n : Nat) : Bool := b / 2 ^ n % 2 == 1
 
 /-- `TransferControl::from_byte` -/
 def TransferControl.fromByte (b : Nat) : TransferControl :=
-  { version := b % 16, senderDrive := bit b 4, receiverDrive := bit b 5, asyncMode := bit b 6 }
+  { version := b % 16, senderDrive := bit b Consts.c17BdxSenderDriveBit, receiverDrive := bit b Consts.c17BdxReceiverDriveBit
+    asyncMode := bit b Consts.c17BdxAsyncBit }
 /-- `TransferControl::to_byte` -/
 def TransferControl.toByte (t : TransferControl) : Nat :=
-  t.version % 16 + (if t.senderDrive then 16 else 0) + (if t.receiverDrive then 32 else 0) + (if t.asyncMode then 64 else 0)
+  t.version % 16 + (if t.senderDrive then 2 ^ Consts.c17BdxSenderDriveBit else 0)
+    + (if t.receiverDrive then 2 ^ Consts.c17BdxReceiverDriveBit else 0) + (if t.asyncMode then 2 ^ Consts.c17BdxAsyncBit else 0)
 
 structure RangeControl where
   defLen : Bool := false
@@ -28,9 +31,10 @@ structure RangeControl where
 deriving DecidableEq, Repr
 
 def RangeControl.fromByte (b : Nat) : RangeControl :=
-  { defLen := bit b 0, startOffset := bit b 1, wideRange := bit b 4 }
+  { defLen := bit b Consts.c17BdxDefLenBit, startOffset := bit b Consts.c17BdxStartOffsetBit, wideRange := bit b Consts.c17BdxWideRangeBit }
 def RangeControl.toByte (r : RangeControl) : Nat :=
-  (if r.defLen then 1 else 0) + (if r.startOffset then 2 else 0) + (if r.wideRange then 16 else 0)
+  (if r.defLen then 2 ^ Consts.c17BdxDefLenBit else 0) + (if r.startOffset then 2 ^ Consts.c17BdxStartOffsetBit else 0)
+    + (if r.wideRange then 2 ^ Consts.c17BdxWideRangeBit else 0)
 
 /-- `if wide { le_u64 } else { le_u32 as u64 }` -/
 def rdRange (wide : Bool) (l : List Nat) : Except Err (Nat × List Nat) :=
